@@ -1,16 +1,33 @@
 """C02 -- the loader is total (scope: tokenizer, XML header, byte trimming)."""
-from contracts import trim
+from contracts import trim, lexer
 
 WS_ALPHA = b' \nA<'
+TOK_ALPHA = b'<>?!/-="\'\n a0x'
+HDR_ALPHA = b'=?>"\' av'
+
+LEX_FINDERS = [dict(module='lexer', check='lex', alphabet=TOK_ALPHA, maxlen=4),
+               dict(module='lexer', check='lex', alphabet=HDR_ALPHA, maxlen=5, prefix=b'<?xml ')]
 
 
 def check(ctx):
+    thorough = ctx.tier == 'thorough'
+    lexer.check_decls(ctx.scratch.dir)
     ctx.verus_unit(trim.UNIT, finder=dict(module='parser', check='trim', alphabet=WS_ALPHA, maxlen=5))
-    maxlen = 6 if ctx.tier == 'quick' else 8
+    ctx.verus_unit(lexer.UNIT, finder=LEX_FINDERS)
+    maxlen = 8 if thorough else 6
     ctx.kani('autosar-data', [dict(name='trim_len%d' % n, module='parser', kind='bounded', bound='input length == %d, all byte values' % n,
                                   timeout=120, desc='unmodified trim_byte_string against the executable contract (cross-check of the desugared Verus text)', covers_optional=(n < 2))
-                              for n in range(0, maxlen + 1)])
+                              for n in range(0, maxlen + 1)]
+             + [dict(name='count_lines_len%d' % n, module='lexer', kind='bounded', bound='input length == %d, all byte values' % n, timeout=120,
+                     desc='unmodified count_lines == number of newline bytes (cross-check of rule R3)') for n in (0, 4, 8)])
+    # cross-check of the desugared `next` against the unmodified one: exhaustive short strings, natively
+    ctx.native_enum('lexer-next-token-alphabet', dict(module='lexer', check='lex', alphabet=TOK_ALPHA, maxlen=6 if thorough else 5),
+                    'real ArxmlLexer::next driven to EOF/error: no panic, <= 2*len+2 calls, line in 1..=1+newlines')
+    ctx.native_enum('lexer-next-xml-header', dict(module='lexer', check='lex', alphabet=HDR_ALPHA, maxlen=7 if thorough else 6, prefix=b'<?xml '),
+                    'same, on buffers starting with "<?xml "')
     return ctx.finish(
-        explanation='Verus proves the contracts on the real text of the functions for buffers of every length; Kani cross-checks the unmodified text on short inputs.',
-        checker_cmd='verus <unit>.rs --output-json (generated from /repo working tree); cargo kani --harness trim_len*',
-        trusted_base=['Verus 0.2026.09.13 + Z3', 'Kani 0.68 + CBMC 6.11', 'extraction rules R1-R14 (DESIGN 3.3)', 'prelude specs of u8::is_ascii_whitespace and slice adapters'])
+        explanation='Verus proves, on the real text of ArxmlLexer::{new,next,read_*}, count_lines and trim_byte_string, for buffers of every length: no index/slice/overflow panic, termination (decreases), the representation invariant, 1 <= line <= 1+newlines for every token and error, and progress (measure decreases on every non-EOF token). Kani and a native exhaustive enumeration cross-check the unmodified text on short inputs (bounded, listed separately). Not covered: parse_attribute_text, parse_character_data, unescape_string, parse_element/parse_arxml and check_buffer beyond the tokens (DESIGN 4, C02).',
+        checker_cmd='verus generated/{trim,lexer}.rs --output-json --time (regenerated from /repo working tree on every run); cargo kani --harness trim_len* --harness count_lines_len*',
+        trusted_base=['Verus 0.2026.09.13 + Z3', 'Kani 0.68 + CBMC 6.11 (bounded cross-checks only)', 'extraction rules R1-R14 (DESIGN 3.3)',
+                      'prelude: spec of u8::is_ascii_whitespace; verified helpers standing for slice::{iter().position, filter().count, starts_with, ends_with, ==, split}',
+                      'slices are at most isize::MAX bytes long (precondition of ArxmlLexer::new; a Rust language guarantee)'])
